@@ -35,6 +35,7 @@ RECURSIVE Pascal(_, _)
 Pascal(n, k) == IF k < 0 \/ k > n THEN 0 ELSE IF n = 0 THEN 1 ELSE Pascal(n - 1, k - 1) + Pascal(n - 1, k)
 ASSUME \A n \in 0..14 : \A k \in (-1)..(n + 1) : RBinom(n, k) = RInt(Pascal(n, k))
 ASSUME RBinom(200, 100) = "90548514656103281165404177077484163874504589675413336841320"
+ASSUME RSeqMaxAbs(<<"1/2", "-7/3", "2">>) = "7/3" /\ RSeqMaxAbs(<<>>) = "0" /\ RSeqMaxAbs(<<"-1/5">>) = "1/5"
 ASSUME RNorm("6/4") = "3/2" /\ RNorm("-0") = "0" /\ RInt(7) = "7" /\ RAdd("1/3", "1/6") = "1/2"
 ASSUME RMul("123456789012345678901234567890", "1/123456789012345678901234567890") = "1"
 ASSUME PrintT(<<"RatSelfTest", "pairs", Cardinality(Pairs)>>)
